@@ -11,6 +11,7 @@
 // An independent twin std::map<int, {tag, std::vector<int64>}> is maintained and compared after every op:
 // any disagreement appends ORACLE-FAIL(...) to the record.
 #include "private_access.h"
+#include "kit.h"
 #include <momo/HashMultiMap.h>
 #include <momo/details/HashBucketLimP4.h>
 #include <momo/details/HashBucketOpen8.h>
@@ -22,8 +23,18 @@
 
 typedef long long i64;
 static int g_hashmode = 0;
+static size_t g_injected = 0, g_inj_add = 0, g_inj_shrink = 0, g_inj_rollback = 0;   // number of injected failures that actually fired (reported on stderr)
 
-struct KeyT { int id; int tag; };
+struct KeyT {
+	int id; int tag;
+	KeyT() : id(0), tag(0) {}
+	KeyT(int i, int t) : id(i), tag(t) {}
+	KeyT(const KeyT&) = default;
+	KeyT(KeyT&&) = default;
+	KeyT& operator=(const KeyT& o) { kit::W().step_copy(); id = o.id; tag = o.tag; return *this; }
+	// move assignment is a fallible step (kit fail_copy): this is what makes mHashMap.Remove throw in RemoveKey
+	KeyT& operator=(KeyT&& o) { kit::W().step_copy(); id = o.id; tag = o.tag; return *this; }
+};
 struct Hasher {
 	size_t operator()(const KeyT& k) const noexcept {
 		unsigned long long x = (unsigned long long)(unsigned)k.id;
@@ -79,6 +90,7 @@ struct Runner {
 	Twin tcur, toth;
 	std::ostringstream out;
 	std::string fail;
+	size_t injected = 0;
 
 	void oracle_fail(const std::string& what) { if (fail.empty()) fail = what; }
 
@@ -187,25 +199,58 @@ struct Runner {
 
 // The generic op interpreter (kept outside the struct to keep template bloat low)
 template<typename MM, typename V>
+static std::string run_case_inner(const std::vector<std::string>& ops);
+
+template<typename MM, typename V>
 static std::string run_case(const std::vector<std::string>& ops) {
+	size_t blocks0 = kit::W().live_blocks(); size_t errs0 = kit::W().errors.size();
+	std::string line = run_case_inner<MM, V>(ops);
+	if (kit::W().live_blocks() != blocks0) line += " ORACLE-FAIL(leak: " + std::to_string(kit::W().live_blocks() - blocks0) + " blocks live after destruction)";
+	if (kit::W().errors.size() != errs0) line += " ORACLE-FAIL(memory protocol: " + kit::W().errors.back() + ")";
+	return line;
+}
+
+template<typename MM, typename V>
+static std::string run_case_inner(const std::vector<std::string>& ops) {
 	typedef Conv<V> C;
 	Runner<MM, V> R;
 	MM& cur = R.cur; MM& oth = R.oth; Twin& tc = R.tcur; Twin& to = R.toth;
 	std::ostringstream line;
 	bool firstRec = true;
+	struct AtExit { Runner<MM, V>& r; ~AtExit() { g_injected += r.injected; } } atExit{R};
 	for (const std::string& tok : ops) {
 		std::vector<std::string> w = split(tok, ',');
 		std::vector<i64> a; for (size_t i = 1; i < w.size(); ++i) a.push_back(std::stoll(w[i]));
 		char c = w[0][0];
+		bool inject = w[0].size() > 1 && w[0][1] == '!';
 		std::ostringstream ret;
 		bool both = false;
+		// fault enumeration for one call: fail the j-th allocation for j = 0,1,2,... until the call completes with the
+		// injection still armed; after every injected failure the container must be EXACTLY as before (same dump,
+		// which also re-checks the twin) -- strong guarantee
+		auto with_alloc_failures = [&](const std::function<void()>& call) {
+			if (!inject) { call(); return; }
+			std::string before = R.dump(cur, tc);
+			for (long j = 0; j < 64; ++j) {
+				kit::W().arm(j, -1, -1);
+				try { call(); bool unused = kit::W().fail_alloc >= 0; kit::W().disarm(); if (!unused) R.oracle_fail("injected allocation failure was swallowed"); return; }
+				catch (const std::bad_alloc&) {
+					kit::W().disarm(); ++R.injected; ++g_inj_add;
+					if (R.dump(cur, tc) != before) { R.oracle_fail("state changed by a call that threw bad_alloc (failure point " + std::to_string(j) + ")"); return; }
+				}
+			}
+			R.oracle_fail("more than 64 failure points"); kit::W().disarm();
+		};
 		switch (c) {
 		case 'a': {
 			int k = (int)a[0], t = (int)a[1]; i64 v = a[2];
 			typename MM::Iterator it;
-			if (v % 3 == 0) { V val = C::enc(v); it = cur.Add(KeyT{k, t}, val); }
-			else if (v % 3 == 1) { KeyT key{k, t}; it = cur.Add(key, C::enc(v)); }
-			else it = cur.Add(KeyT{k, t}, C::enc(v));
+			with_alloc_failures([&]() {
+				if (v % 3 == 0) { V val = C::enc(v); it = cur.Add(KeyT{k, t}, val); }
+				else if (v % 3 == 1) { KeyT key{k, t}; it = cur.Add(key, C::enc(v)); }
+				else it = cur.Add(KeyT{k, t}, C::enc(v));
+			});
+			if (!R.fail.empty()) break;
 			ret << "it(" << it->key.id << "," << C::dec(it->value) << ")";
 			auto f = tc.m.find(k);
 			if (f == tc.m.end()) tc.m[k] = std::make_pair(t, std::vector<i64>{v}); else f->second.second.push_back(v);
@@ -215,7 +260,11 @@ static std::string run_case(const std::vector<std::string>& ops) {
 			auto ki = cur.Find(KeyT{k, -1});
 			if (!ki) { ret << "skip"; break; }
 			typename MM::Iterator it;
-			if (v % 2 == 0) { V val = C::enc(v); it = cur.Add(ki, val); } else it = cur.Add(ki, C::enc(v));
+			with_alloc_failures([&]() {
+				auto kf = cur.Find(KeyT{k, -1});
+				if (v % 2 == 0) { V val = C::enc(v); it = cur.Add(kf, val); } else it = cur.Add(kf, C::enc(v));
+			});
+			if (!R.fail.empty()) break;
 			ret << "it(" << it->key.id << "," << C::dec(it->value) << ")";
 			tc.m[k].second.push_back(v);
 			break; }
@@ -230,20 +279,35 @@ static std::string run_case(const std::vector<std::string>& ops) {
 			int k = (int)a[0]; size_t i = (size_t)a[1];
 			auto ki = cur.Find(KeyT{k, -1});
 			if (!ki || i >= ki->GetCount()) { ret << "skip"; break; }
-			typename MM::Iterator it = (c == 'r') ? cur.Remove(ki, i) : cur.Remove(cur.MakeIterator(ki, i));
+			// flat position of the pair in the traversal (any key order)
+			size_t pos = 0; { const V* target = &ki->GetBegin()[i]; bool found = false;
+				for (auto itx = cur.GetBegin(); itx != cur.GetEnd(); ++itx, ++pos) if (&itx->value == target) { found = true; break; }
+				if (!found) R.oracle_fail("Remove: pair not in the traversal"); }
+			std::vector<int> orderBefore; for (auto kref : cur.GetKeyBounds()) orderBefore.push_back(kref.key.id);
+			if (inject) kit::W().arm(0, -1, -1);          // a Shrink inside RemoveBack fails: must be swallowed
+			typename MM::Iterator it;
+			typename MM::KeyIterator km;      // movable key iterator: found by walking the key bounds
+			if (c == 'R') { for (km = cur.GetKeyBounds().GetBegin(); !!km && km->key.id != k; ++km) {} if (!km) { R.oracle_fail("key not in key bounds"); break; } }
+			try { it = (c == 'r') ? cur.Remove(ki, i) : ((a[1] + k) % 2 ? cur.Remove(km, i) : cur.Remove(cur.MakeIterator(km, i))); }
+			catch (...) { R.oracle_fail("Remove threw"); kit::W().disarm(); break; }
+			if (inject) { if (kit::W().fail_alloc < 0) { ++R.injected; ++g_inj_shrink; } kit::W().disarm(); }
 			auto& vec = tc.m[k].second;
 			vec[i] = vec.back(); vec.pop_back();
+			{	// the returned iterator is the one at the same flat position of the new traversal (end if none)
+				std::vector<int> orderAfter; for (auto kref : cur.GetKeyBounds()) orderAfter.push_back(kref.key.id);
+				if (orderAfter != orderBefore) R.oracle_fail("Remove changed the key order");
+				auto itx = cur.GetBegin(); for (size_t q = 0; q < pos && itx != cur.GetEnd(); ++q) ++itx;
+				// a key iterator obtained from a traversal is movable: the result continues the traversal (theorem
+				// C08_remove_returns_rest_of_traversal).  One obtained from Find is a momo "position" (operator++ gives
+				// end), so there the result is end() when the hole was the key's last value.
+				if (c == 'R') { if (!(itx == it)) R.oracle_fail("Remove: returned iterator is not at the flat position of the removed pair"); }
+				else if (i < vec.size()) { if (!(itx == it)) R.oracle_fail("Remove(Find): returned iterator not at the same index"); }
+				else if (!(it == cur.GetEnd())) R.oracle_fail("Remove(Find): position-derived iterator should end");
+			}
 			if (i < vec.size()) {
 				if (!it || it->key.id != k) R.oracle_fail("Remove: returned iterator not at the same index");
 				ret << "it(" << it->key.id << "," << C::dec(it->value) << ")";
-			} else {
-				// must be the first value of the next non-empty key in key order, or end
-				auto kj = ki; ++kj;   // ki is still valid: Remove does not touch the key table
-				while (!!kj && kj->GetCount() == 0) ++kj;
-				if (!kj) { if (!!it) R.oracle_fail("Remove: returned iterator should be end"); }
-				else if (!it || it->key.id != kj->key.id || &it->value != &*kj->GetBegin()) R.oracle_fail("Remove: returned iterator not at next pair");
-				ret << "nx";
-			}
+			} else ret << "nx";
 			break; }
 		case 'p': {
 			i64 pa = a[0], pb = a[1], pm = a[2], pr = a[3];
@@ -285,9 +349,38 @@ static std::string run_case(const std::vector<std::string>& ops) {
 			auto ki = cur.Find(KeyT{k, -1});
 			if (!ki) { ret << "skip"; break; }
 			size_t n = ki->GetCount();
-			cur.RemoveKey(ki);
+			if (inject) {
+				std::string before = R.dump(cur, tc);
+				kit::W().arm(-1, 0, -1);                // the key move-assignment inside mHashMap.Remove throws
+				try { cur.RemoveKey(ki); kit::W().disarm(); }
+				catch (const kit::InjectedCopy&) {
+					kit::W().disarm(); ++R.injected; ++g_inj_rollback;
+					if (R.dump(cur, tc) != before) { R.oracle_fail("RemoveKey roll-back: state changed by the throwing call"); break; }
+					cur.RemoveKey(cur.Find(KeyT{k, -1}));
+				}
+			} else cur.RemoveKey(ki);
 			ret << "rk" << n;
 			tc.m.erase(k);
+			break; }
+		case 'n': {
+			int k = (int)a[0], t = (int)a[1];
+			auto ki = cur.Find(KeyT{k, -1});
+			if (!!ki) { ret << "skip"; break; }
+			auto kc = [k, t](KeyT* newKey) { ::new(static_cast<void*>(newKey)) KeyT(k, t); };
+			auto kn = cur.AddKeyCrt(ki, kc);
+			ret << "key(" << kn->key.id << "," << kn->key.tag << "," << kn->GetCount() << ")";
+			tc.m[k] = std::make_pair(t, std::vector<i64>());
+			break; }
+		case 'G': {
+			std::vector<std::pair<KeyT, V>> ps;
+			for (size_t q = 0; q + 2 < a.size(); q += 3) ps.push_back(std::make_pair(KeyT{(int)a[q], (int)a[q + 1]}, C::enc(a[q + 2])));
+			if (ps.size() == 2 && a[2] % 2 == 0) cur.Add({ ps[0], ps[1] });      // initializer_list form
+			else cur.Add(ps.begin(), ps.end());
+			for (size_t q = 0; q + 2 < a.size(); q += 3) {
+				int k = (int)a[q]; auto f = tc.m.find(k);
+				if (f == tc.m.end()) tc.m[k] = std::make_pair((int)a[q + 1], std::vector<i64>{a[q + 2]}); else f->second.second.push_back(a[q + 2]);
+			}
+			ret << "ok";
 			break; }
 		case 't': {
 			int k = (int)a[0], t = (int)a[1];
@@ -323,8 +416,8 @@ static std::string run_case(const std::vector<std::string>& ops) {
 }
 
 template<typename Bucket, size_t M, typename V>
-using MMap = momo::HashMultiMap<KeyT, V, momo::HashTraitsStd<KeyT, Hasher, Eq, Bucket>, momo::MemManagerDefault,
-	momo::HashMultiMapKeyValueTraits<KeyT, V, momo::MemManagerDefault>, Settings<M>>;
+using MMap = momo::HashMultiMap<KeyT, V, momo::HashTraitsStd<KeyT, Hasher, Eq, Bucket>, kit::MMR,
+	momo::HashMultiMapKeyValueTraits<KeyT, V, kit::MMR>, Settings<M>>;
 
 template<size_t M, typename V>
 static std::string by_bucket(const std::string& b, const std::vector<std::string>& ops) {
@@ -360,5 +453,6 @@ int main() {
 		}
 		std::cout << res << "\n";
 	}
+	std::cerr << "injected=" << g_injected << " add_throw=" << g_inj_add << " shrink_swallowed=" << g_inj_shrink << " removekey_rollback=" << g_inj_rollback << "\n";
 	return 0;
 }
